@@ -7,6 +7,7 @@ import (
 	"go/ast"
 	"go/printer"
 	"go/token"
+	"regexp"
 	"strings"
 )
 
@@ -14,8 +15,12 @@ import (
 //
 // A skeleton is the ordered list of calls, branches and returns of a function
 // body with the error plumbing (`if err != nil { return … }`, `err` on the left
-// of an assignment) removed, rendered without white space.  Refactorings of
-// error handling do not change it; reordering, dropping or rewiring a call does.
+// of an assignment) removed, rendered without white space, with the function's
+// parameters and local variables renamed to positional names (p0, p1, … / v0, v1, …
+// in order of declaration) and the text of error messages (the literal first
+// argument of fmt.Errorf / errors.New) blanked.  Refactorings of error handling,
+// renamings of locals and rewordings of messages do not change it; reordering,
+// dropping or rewiring a call does.
 
 func render(fset *token.FileSet, n ast.Node) string {
 	var b bytes.Buffer
@@ -55,6 +60,64 @@ func render(fset *token.FileSet, n ast.Node) string {
 		out.WriteByte(c)
 	}
 	return out.String()
+}
+
+// alphaRename gives every parameter, named result and local variable of fd a positional name.
+// The error variables the skeleton recognises by name (err, cerr, e) and the blank identifier keep theirs.
+func alphaRename(fd *ast.FuncDecl) {
+	names := map[*ast.Object]string{}
+	np, nv := 0, 0
+	keep := func(n string) bool { return n == "err" || n == "cerr" || n == "e" || n == "_" }
+	inSig := func(pos token.Pos) bool {
+		if fd.Type.Pos() <= pos && pos < fd.Type.End() {
+			return true
+		}
+		return fd.Recv != nil && fd.Recv.Pos() <= pos && pos < fd.Recv.End()
+	}
+	ast.Inspect(fd, func(n ast.Node) bool {
+		id, ok := n.(*ast.Ident)
+		if !ok || id.Obj == nil || id.Obj.Kind != ast.Var {
+			return true
+		}
+		o := id.Obj
+		if o.Pos() < fd.Pos() || o.Pos() >= fd.End() || keep(o.Name) {
+			return true
+		}
+		if _, ok := names[o]; !ok {
+			if inSig(o.Pos()) {
+				names[o] = fmt.Sprintf("p%d", np)
+				np++
+			} else {
+				names[o] = fmt.Sprintf("v%d", nv)
+				nv++
+			}
+		}
+		return true
+	})
+	ast.Inspect(fd, func(n ast.Node) bool {
+		switch x := n.(type) {
+		case *ast.Ident:
+			if x.Obj != nil {
+				if nn, ok := names[x.Obj]; ok {
+					x.Name = nn
+				}
+			}
+		case *ast.CallExpr:
+			// blank the wording of error messages
+			if sel, ok := x.Fun.(*ast.SelectorExpr); ok && len(x.Args) > 0 {
+				if pk, ok := sel.X.(*ast.Ident); ok && ((pk.Name == "fmt" && sel.Sel.Name == "Errorf") || (pk.Name == "errors" && sel.Sel.Name == "New")) {
+					if lit, ok := x.Args[0].(*ast.BasicLit); ok && lit.Kind == token.STRING {
+						w := ""
+						if strings.Contains(lit.Value, "%w") {
+							w = "%w"
+						}
+						lit.Value = "\"..." + w + "\""
+					}
+				}
+			}
+		}
+		return true
+	})
 }
 
 func identByte(c byte) bool {
@@ -268,6 +331,7 @@ func genWriteTgzReal() (string, error) {
 			return "", fmt.Errorf("G8: %s: func %s not found", t.file, t.fn)
 		}
 		var sk []string
+		alphaRename(fd)
 		skeleton(s.fset, fd.Body.List, &sk)
 		skels[t.file+":"+t.fn] = sk
 		id := strings.NewReplacer("/", "_", ".go", "", ".", "_").Replace(t.file) + "_" + t.fn
@@ -282,55 +346,69 @@ func genWriteTgzReal() (string, error) {
 		b.WriteString("]\n")
 	}
 
-	// structured reading of apk.writeTgz: the ops after the builder call, the buffer size
+	// structured reading of apk.writeTgz: the ops after the builder call, the buffer size.  The roles of the
+	// (positionally renamed) variables are read off the constructor calls that define them.
 	sk := skels["apk/apk.go:writeTgz"]
-	var ops []string
+	role := map[string]string{}
 	bufCap := "0"
-	seenBuilder := false
-	for i := 0; i < len(sk); i++ {
+	builderAt := -1
+	for i, l := range sk {
+		if m := regexp.MustCompile(`^(\w+):=gzip\.NewWriter\((\w+)\)$`).FindStringSubmatch(l); m != nil {
+			role["gw"] = m[1]
+		}
+		if m := regexp.MustCompile(`^(\w+):=newWriterCounter\((\w+)\)$`).FindStringSubmatch(l); m != nil {
+			role["cw"] = m[1]
+		}
+		if m := regexp.MustCompile(`^(\w+):=bufio\.NewWriterSize\((\w+),(\d+)\)$`).FindStringSubmatch(l); m != nil {
+			role["bw"] = m[1]
+			bufCap = m[3]
+		}
+		if m := regexp.MustCompile(`^(\w+):=tar\.NewWriter\((\w+)\)$`).FindStringSubmatch(l); m != nil {
+			role["tw"] = m[1]
+		}
+		if m := regexp.MustCompile(`^(\w+)\((\w+)\)$`).FindStringSubmatch(l); m != nil && builderAt < 0 && role["tw"] != "" && m[2] == role["tw"] {
+			builderAt = i
+		}
+	}
+	var ops []string
+	for i := builderAt + 1; builderAt >= 0 && i < len(sk); i++ {
 		l := sk[i]
-		if strings.HasPrefix(l, "bw:=bufio.NewWriterSize(cw,") {
-			bufCap = strings.TrimSuffix(strings.TrimPrefix(l, "bw:=bufio.NewWriterSize(cw,"), ")")
-		}
-		if l == "builder(tw)" {
-			seenBuilder = true
-			continue
-		}
-		if !seenBuilder {
-			continue
-		}
 		switch {
-		case l == "bw.Flush()":
+		case l == role["bw"]+".Flush()":
 			ops = append(ops, ".flushBuf")
-		case l == "tw.Close()":
+		case l == role["tw"]+".Close()":
 			ops = append(ops, ".closeTar")
-		case l == "ifkind==tarFull{" || l == "if kind==tarFull{":
-			if i+2 < len(sk) && sk[i+1] == "bw.Flush()" && sk[i+2] == "}" {
+		case regexp.MustCompile(`^if \w+==tarFull\{$`).MatchString(l):
+			if i+2 < len(sk) && sk[i+1] == role["bw"]+".Flush()" && sk[i+2] == "}" {
 				ops = append(ops, ".flushBufIfFull")
 				i += 2
 			} else {
 				ops = append(ops, ".other "+leanStr(clip(l)))
 			}
-		case l == "size:=cw.Count()":
+		case regexp.MustCompile(`^\w+:=`+regexp.QuoteMeta(role["cw"])+`\.Count\(\)$`).MatchString(l):
 			// size := cw.Count(); alignedSize := (size + 511) & ^uint64(511); increase := alignedSize - size;
 			// if increase > 0 { b := make([]byte, increase); cw.Write(b) }
-			want := []string{"alignedSize:=(size+511)&^uint64(511)", "increase:=alignedSize-size", "if increase>0{", "b:=make([]byte,increase)", "cw.Write(b)", "}"}
-			j := i + 1
-			ok := true
-			for _, w := range want {
-				if j >= len(sk) || sk[j] != w {
-					ok = false
-					break
+			sz := strings.SplitN(l, ":=", 2)[0]
+			ok := false
+			if i+6 < len(sk) {
+				m1 := regexp.MustCompile(`^(\w+):=\(` + sz + `\+511\)&\^uint64\(511\)$`).FindStringSubmatch(sk[i+1])
+				if m1 != nil {
+					m2 := regexp.MustCompile(`^(\w+):=` + m1[1] + `-` + sz + `$`).FindStringSubmatch(sk[i+2])
+					if m2 != nil && sk[i+3] == "if "+m2[1]+">0{" {
+						m3 := regexp.MustCompile(`^(\w+):=make\(\[\]byte,` + m2[1] + `\)$`).FindStringSubmatch(sk[i+4])
+						if m3 != nil && sk[i+5] == role["cw"]+".Write("+m3[1]+")" && sk[i+6] == "}" {
+							ok = true
+						}
+					}
 				}
-				j++
 			}
 			if ok {
 				ops = append(ops, ".alignPad 512")
-				i = j - 1
+				i += 6
 			} else {
 				ops = append(ops, ".other "+leanStr(clip(l)))
 			}
-		case l == "gw.Close()":
+		case l == role["gw"]+".Close()":
 			ops = append(ops, ".closeGz")
 		case strings.HasPrefix(l, "return "):
 			// the returned digest is part of the layering check below
@@ -341,8 +419,8 @@ func genWriteTgzReal() (string, error) {
 	fmt.Fprintf(&b, "/-- apk.writeTgz after the builder ran -/\ndef apkTgzOps : List TgzOp := [%s]\n", strings.Join(ops, ", "))
 	fmt.Fprintf(&b, "def apkBufCap : Nat := %s\n", bufCap)
 	var layers []string
-	for _, l := range sk {
-		if l == "err:=builder(tw)" || l == "builder(tw)" {
+	for i, l := range sk {
+		if i == builderAt {
 			break
 		}
 		layers = append(layers, leanStr(l))
